@@ -1,8 +1,102 @@
+(* C11 - parameters and step outputs reach the steps that use them, unchanged.
+   This file holds nothing but the property theorems (closed by `exact`), Print Assumptions and Examples.
+   Model: Params/Model.v - the parameter tokenizer (leftmost-first semantics of the regexp of parser.go:173-175),
+   Trim/unescape, stringify, model.Params (join), the assignment list of parseParams, doc_render of the documented
+   forms, strings.TrimSpace, the run-wide output map; Log/Model.v for the capture pipe.
+   Tie to the code: tools/props/C11.py (dag.LoadYAML / dag.Load / model.Status / real scheduler and children).
+
+   The full statements
+       forall its,  parse (doc_render its) = values its
+       forall its,  parse (record (parse (doc_render its))) = parse (doc_render its)
+   are FALSE of the faithful model (F11a, F11b, F11c - the _refuted theorems below, each replayed on the real
+   code by the check); the _partial theorems carry the excluded classes as decidable premises V0 / V1. *)
 From Coq Require Import List String Ascii.
 Import ListNotations.
 From BD.Params Require Import Model Proofs.
+From BD.Log Require Model Proofs.
 
+(* Every documented item - word, "quoted value", NAME=word, NAME="quoted value" - of a list of any length yields
+   exactly its name and value, for values in V0: a word has no white space / quote, does not start with a back-tick
+   (and, unnamed, has no = after its first character); quoted text is arbitrary (spaces, =, quotes, back-ticks,
+   backslashes, any byte, empty) except that it does not END with a quote or a backslash and, unnamed, its first
+   white-space-or-= character is not an = followed by a non-space. *)
+Theorem C11_parse_doc_partial : forall its : list item, V0 its = true -> parse (doc_render its) = values its.
+Proof. exact parse_doc. Qed.
+Print Assumptions C11_parse_doc_partial.
+
+(* ... and each item is exported: $i carries the stringified item, $NAME exactly the value *)
+Theorem C11_env_doc_partial : forall its i it, V0 its = true -> nth_error its i = Some it ->
+  In (dec (S i), stringify (item_pair it)) (assigns (parse (doc_render its))) /\
+  (fst (item_pair it) <> [] -> In (item_pair it) (assigns (parse (doc_render its)))).
+Proof. exact env_doc. Qed.
+Print Assumptions C11_env_doc_partial.
+
+(* What retry and restart rely on: re-parsing the recorded string gives back the parameters, for parameters in V1
+   (value: non-empty, no white space, no quote, no leading back-tick; positional: no = after the first character). *)
+Theorem C11_roundtrip_partial : forall s : la, V1 (parse s) = true -> parse (record (parse s)) = parse s.
+Proof. exact roundtrip. Qed.
+Print Assumptions C11_roundtrip_partial.
+
+Theorem C11_record_parse_partial : forall ps : list pair, V1 ps = true -> parse (record ps) = ps.
+Proof. exact record_parse. Qed.
+Print Assumptions C11_record_parse_partial.
+
+(* F11a: the round trip loses values with spaces - even for documented items in V0 *)
 Theorem C11_roundtrip_refuted : exists its, V0 its = true /\
   parse (record (parse (doc_render its))) <> parse (doc_render its).
-Proof. exact Proofs.C11_roundtrip_refuted. Qed.
+Proof. exact roundtrip_refuted. Qed.
 Print Assumptions C11_roundtrip_refuted.
+
+(* F11b: an escaped quote (or a backslash) at the end of a quoted value *)
+Theorem C11_parse_doc_refuted_edge : exists v, parse (doc_render [IQuoted v]) <> values [IQuoted v].
+Proof. exact parse_doc_refuted_edge_quote. Qed.
+Print Assumptions C11_parse_doc_refuted_edge.
+
+Theorem C11_parse_doc_refuted_backslash : exists v w, parse (doc_render [IQuoted v; IQuoted w]) <> values [IQuoted v; IQuoted w].
+Proof. exact parse_doc_refuted_edge_backslash. Qed.
+Print Assumptions C11_parse_doc_refuted_backslash.
+
+(* F11c: an unnamed quoted value with an = before any space is read as NAME=value *)
+Theorem C11_parse_doc_refuted_eq : exists v, parse (doc_render [IQuoted v]) <> values [IQuoted v].
+Proof. exact parse_doc_refuted_eq. Qed.
+Print Assumptions C11_parse_doc_refuted_eq.
+
+(* Outputs: a command started after the end of a producer's attempt (a step at any distance, a handler) sees
+   NAME = TrimSpace(captured bytes), provided no other attempt stored the same name in between ... *)
+Theorem C11_output : forall m0 pre n c mid j post,
+  no_writer n mid ->
+  exists before seen after,
+    oflow m0 (pre ++ OEnd n c :: mid ++ OStart j :: post) = before ++ (j, seen) :: after /\
+    List.length before = List.length (oflow m0 (pre ++ OEnd n c :: mid)) /\
+    value_of n seen = Some (trim_space c).
+Proof. exact output_flow. Qed.
+Print Assumptions C11_output.
+
+(* ... and so does every step of a later retry of the run (the recorded map is re-installed unchanged) *)
+Theorem C11_output_retry : forall pre n c mid, no_writer n mid ->
+  value_of n (reinstall (ofinal [] (pre ++ OEnd n c :: mid))) = Some (trim_space c).
+Proof. exact output_retry. Qed.
+Print Assumptions C11_output_retry.
+
+(* The captured bytes are the producer's stdout - and its stderr when no `stderr:` file is set (F11d) - provided the
+   capture pipe takes them (one attempt, at most half a pipe; beyond that see C12: F12c) *)
+Theorem C11_capture_partial : forall (A : Type) (c : Log.Model.cfg) (cs : list (Log.Model.chunk A)),
+  Log.Model.c_output c = true -> List.length (Log.Model.log_of A c cs) <= Log.Model.HALFPIPE ->
+  Log.Model.outvar A (Log.Model.run A c [cs] []) = Some (Log.Model.log_of A c cs).
+Proof. exact Log.Proofs.capture_single. Qed.
+Print Assumptions C11_capture_partial.
+
+Theorem C11_capture_stdout_refuted : exists (c : Log.Model.cfg) (cs : list (Log.Model.chunk nat)),
+  Log.Model.c_output c = true /\
+  Log.Model.outvar nat (Log.Model.run nat c [cs] []) <> Some (Log.Model.out_of nat cs).
+Proof. exact Log.Proofs.capture_stdout_refuted. Qed.
+Print Assumptions C11_capture_stdout_refuted.
+
+(* Non-vacuity: V0 and V1 are inhabited by the kinds of value the property speaks of *)
+Example C11_V0_nonvacuous :
+  V0 [IWord (L "a"); IQuoted (L "a b = c"); INamed (L "X") (L "1=2"); INamedQ (L "Y") (L " p=q  r ");
+      IQuoted (dq :: L "hi" ++ dq :: L " there"); IQuoted []; IWord (L "=x"); IQuoted (L "a= b");
+      INamedQ (L "Z") (L "`date` \x"); IQuoted (L "k =v")] = true.
+Proof. exact V0_example. Qed.
+Example C11_V1_nonvacuous : V1 [([], L "a"); (L "X", L "1=2"); ([], L "=x"); ([], L "a\b`c")] = true.
+Proof. exact V1_example. Qed.
